@@ -23,15 +23,16 @@ ASSUMPTIONS = [
     "internal node k of the parameter vector is the k-th internal node in post-order of the Newick as written (documented convention)",
 ]
 BUDGET = {"quick": 70, "thorough": 800}
-FLOORS = {"validity_checks": {"quick": 1500, "thorough": 15000}, "round_trips_single": 300, "round_trips_batched": 300,
-          "moves": 200, "heterochronous": 300}
+ROUNDS = {"thorough": 10}
+FLOORS = {"overlay.C06.judged": {"quick": 100, "thorough": 1500}, "overlay.C06.branch_lengths_judged": {"quick": 100, "thorough": 1500}, "validity_checks": {"quick": 1500, "thorough": 15000}, "round_trips_single": 300, "round_trips_batched": 300,
+          "moves": 200, "moves_smooth_max": 20, "heterochronous": 300}
 
 
 def EXHAUSTIVE(tier):
     return False
 
 
-def cases(tier, seed):
+def _cases(tier, seed):
     rng = np.random.default_rng([seed, 6])
     topos = []
     for n in (2, 3, 4, 5):
@@ -51,6 +52,8 @@ def cases(tier, seed):
             batch = [0, 0, 1, 2, max(n - 1, 1), max(n - 2, 1)][(j // 2) % 6]
             c = gt.make_case(rng, t, param, None, batch)
             c["move"] = ["none", "none", "float32", "float64", "cpu"][(j // 3) % 5]
+            if c["move"] != "none" and param == "shift" and (j // 15) % 2 == 0:
+                c["smooth_k"] = float(np.round(rng.uniform(2.0, 60.0), 3))
             out.append(c)
             j += 1
     return out
@@ -115,7 +118,7 @@ def _inverse_tolerance(case, x):
     return tol
 
 
-def run_case(case):
+def _run_case(case):
     import torch
 
     V = []
@@ -184,7 +187,29 @@ def run_case(case):
             V.append(tt.viol("C06:inverse:%s:%s" % (tag, "batched" if B else "single"), "inv(forward(x)) != x (%s; batch %s, %d taxa)" % (detail, B or "[]", n), case=case))
     # dtype / device moves keep the parameterisation in force
     mv = case["move"]
-    if mv != "none":
+    if mv != "none" and case.get("smooth_k") and case["param"] == "shift" and not V:
+        # the increment parameterisation with a smooth maximum (k > 0) is a different map: a move must keep *it* in force too
+        from torchtree.evolution.tree_height_transform import DifferenceNodeHeightTransform
+
+        k = float(case["smooth_k"])
+        tree.transform = DifferenceNodeHeightTransform(tree, k)
+        dic["tree.shifts"].tensor = dic["tree.shifts"].tensor.clone()
+        h0 = tt.as_np(tree.node_heights, "C06:not-a-tensor:" + tag, "node_heights").astype(float)
+        C["moves"] += 1
+        C["moves_smooth_max"] = 1
+        if mv == "float32":
+            tree.to(torch.float32)
+        elif mv == "float64":
+            tree.to(torch.float64)
+        else:
+            tree.cpu()
+        dic["tree.shifts"].tensor = dic["tree.shifts"].tensor.clone()
+        h1 = tt.as_np(tree.node_heights, "C06:not-a-tensor:" + tag, "node_heights").astype(float)
+        tolm = 1e-5 if mv == "float32" else 1e-12
+        if type(tree.transform).__name__ != "DifferenceNodeHeightTransform" or getattr(tree.transform, "k", None) != k or h0.shape != h1.shape or np.abs(h0 - h1).max() > tolm * max(1.0, np.abs(h0).max()):
+            V.append(tt.viol("C06:move-changes-parameterisation:shift-smooth-max:%s" % mv, "after %s the increments map to different heights (max diff %.3g): transform %s with k=%s, it was the smooth-max increment transform with k=%s" % (
+                mv, np.abs(h0 - h1).max() if h0.shape == h1.shape else float("nan"), type(tree.transform).__name__, getattr(tree.transform, "k", None), k), case=case))
+    elif mv != "none":
         C["moves"] += 1
         if mv == "float32":
             tree.to(torch.float32)
@@ -204,3 +229,20 @@ def run_case(case):
         fp = "%s|%s|%s|%s|%s" % (case["newick"], case["dates_mode"], tag, B, mv)
     sample = {k: case[k] for k in ("newick", "names", "dates", "param", "batch", "move")} if n <= 6 else None
     return {"violations": V, "counters": C, "fingerprint": fp, "sample": sample}
+
+
+# ---------------------------------------------------------------- the same invariants as an overlay on realistic workloads
+def cases(tier, seed):
+    """the property's own generator plus the shared workloads (configurations emitted by torchtree-cli, loaded, evaluated and
+    really run for a few iterations; in thorough also the repository's own test-suite) with this property's contracts attached"""
+    from ..work import shared
+
+    return shared.overlay_cases(tier, seed, PROPERTY) + _cases(tier, seed)
+
+
+def run_case(case):
+    if isinstance(case, dict) and "overlay" in case:
+        from ..work import shared
+
+        return shared.run_overlay_case(case, PROPERTY)
+    return _run_case(case)
